@@ -323,7 +323,7 @@ def gen_cell(rnd, spec, f):
         c = rnd.choice(["a", "b", "x", "ab"])
     if spec["format"] == "fixed":
         w = f["length"][0][0]
-        c = (c + " " * w)[:w]
+        c = (c + " " * w)[:w] if rnd.random() < 0.8 else (" " * w + c)[-w:]     # sometimes right-aligned
     return c
 
 
